@@ -42,16 +42,16 @@ type Engine struct {
 	// Callees resolves dynamic calls through the call graph (nil: unknown).
 	Callees func(site ssa.CallInstruction) []*ssa.Function
 	// BoundCall lets rules give bounds for special calls (cache lookups).
-	BoundCall func(c *BCtx, call *ssa.Call, idx int) (Bounds, bool)
+	BoundCall  func(c *BCtx, call *ssa.Call, idx int) (Bounds, bool)
 	sortsParam map[*ssa.Function][]int
 	// SortedCall lets rules decide sortedness of special calls' results.
 	SortedCall func(call *ssa.Call, idx int) (sorted bool, known bool)
 	// ExtraSortedCall lets the caller declare library calls whose result is
 	// sorted by descending score of its elements (not used for SearchResult).
-	boundSum map[*ssa.Function]*BoundSummary
+	boundSum  map[*ssa.Function]*BoundSummary
 	boundBusy map[*ssa.Function]bool
-	ordSum   map[ordKey]OrderSummary
-	ordBusy  map[*ssa.Function]bool
+	ordSum    map[ordKey]OrderSummary
+	ordBusy   map[*ssa.Function]bool
 }
 
 func New(sx *symx.Ctx, isRepo func(*ssa.Function) bool, isDesc func(*ssa.Function) bool, elem string) *Engine {
@@ -157,11 +157,24 @@ type ParamPath struct {
 type BCtx = bctx
 
 type bctx struct {
-	e    *Engine
-	fn   *ssa.Function
-	f    *symx.Fn
-	memo map[ssa.Value]Bounds
-	busy map[ssa.Value]bool
+	depthFieldOf int
+	e            *Engine
+	fn           *ssa.Function
+	f            *symx.Fn
+	memo         map[ssa.Value]Bounds
+	busy         map[ssa.Value]bool
+}
+
+// FieldLimitKey names, as a canonical limit key, the value of field name of
+// struct value sv in fn ("" when it cannot be resolved): through local
+// literals, parameter copies and projection helpers.
+func (e *Engine) FieldLimitKey(fn *ssa.Function, sv ssa.Value, name string) string {
+	c := &bctx{e: e, fn: fn, f: e.Sx.Of(fn), memo: map[ssa.Value]Bounds{}, busy: map[ssa.Value]bool{}}
+	fv := c.fieldOf(sv, name)
+	if fv == nil {
+		return ""
+	}
+	return c.limKey(fv)
 }
 
 // BoundsOf computes the bounds of slice value v of function fn.
@@ -606,6 +619,66 @@ func (c *bctx) callee(call *ssa.Call, cal *ssa.Function, idx int, d int) Bounds 
 func (c *bctx) fieldOf(sv ssa.Value, name string) ssa.Value {
 	if p, ok := sv.(*ssa.Parameter); ok {
 		return paramField{p, name}
+	}
+	// a struct built by a helper of the repository from its parameters
+	// (cacheOptions := toCacheOptions(options)): the field is what the helper
+	// puts there, expressed over this call's arguments
+	if call, ok := sv.(*ssa.Call); ok {
+		g := call.Common().StaticCallee()
+		if g == nil || !c.e.IsRepo(g) || g.Blocks == nil || c.depthFieldOf > 3 {
+			return nil
+		}
+		gc := &bctx{e: c.e, fn: g, f: c.e.Sx.Of(g), memo: map[ssa.Value]Bounds{}, busy: map[ssa.Value]bool{}, depthFieldOf: c.depthFieldOf + 1}
+		var out ssa.Value
+		for _, ret := range ssau.ReturnsOf(g) {
+			if len(ret.Results) != 1 {
+				return nil
+			}
+			fv := gc.fieldOf(ret.Results[0], name)
+			// normalise what the helper stored: a field of one of its parameters, or a parameter
+			if fld, ok := fv.(*ssa.Field); ok {
+				if p, ok := fld.X.(*ssa.Parameter); ok {
+					fv = paramField{p, ssau.FieldName(fld)}
+				}
+			} else if _, ok := fv.(paramField); !ok && fv != nil {
+				if pp, ok := limitParam(gc, fv); ok {
+					if pp.field != "" {
+						fv = paramField{pp.p, pp.field}
+					} else {
+						fv = pp.p
+					}
+				}
+			}
+			pf, isPF := fv.(paramField)
+			if !isPF {
+				// a plain parameter of the helper
+				if p, isP := fv.(*ssa.Parameter); isP {
+					for i, q := range g.Params {
+						if q == p && i < len(call.Common().Args) {
+							fv = call.Common().Args[i]
+						}
+					}
+				} else {
+					return nil
+				}
+			} else {
+				var arg ssa.Value
+				for i, q := range g.Params {
+					if q == pf.Parameter && i < len(call.Common().Args) {
+						arg = call.Common().Args[i]
+					}
+				}
+				if arg == nil {
+					return nil
+				}
+				fv = c.fieldOf(arg, pf.field)
+			}
+			if fv == nil || (out != nil && c.limKey(out) != c.limKey(fv)) {
+				return nil
+			}
+			out = fv
+		}
+		return out
 	}
 	u, ok := sv.(*ssa.UnOp)
 	if !ok || u.Op != token.MUL {
